@@ -1,4 +1,5 @@
 import Tickit.Model.WinInput
+import Tickit.Gen.WinInputCfg
 import Tickit.Driver.Common
 /-
   Engine `input` (C14).  Operations and observation format: see harness/input.c.
@@ -7,6 +8,9 @@ import Tickit.Driver.Common
 -/
 namespace Tickit.Driver.InputEngine
 open Tickit Tickit.Driver Tickit.WinTree Tickit.WinInput
+
+/-- Which repairs are present in the working tree (extracted from src/window.c). -/
+def cfg : Cfg := Tickit.Gen.WinInputCfg.cfg
 
 /-! ### printing -/
 
@@ -79,7 +83,7 @@ deriving Repr, Inhabited
 
 
 structure DSt where
-  st : St := newSt 0 0
+  st : St := newSt cfg 0 0
   started : Bool := false
   dead : Option String := none        -- the model reached `ub` / ran out of fuel earlier in this history
   drag : Drag := {}                   -- the specification's own press memory and drag state
@@ -101,7 +105,7 @@ def modelStep (d : DSt) (ts : List String) : DSt × String :=
   match ts with
   | ["new", l, c] =>
     match ints? [l, c] with
-    | some [l, c] => let st := newSt l c; ({ st := st, started := true }, obsLine [] st.tree)
+    | some [l, c] => let st := newSt cfg l c; ({ st := st, started := true }, obsLine [] st.tree)
     | _ => (d, "bad-op")
   | _ =>
   if !d.started then (d, "bad-op") else
@@ -130,7 +134,7 @@ def modelStep (d : DSt) (ts : List String) : DSt × String :=
     | _, _, _ => (d, "bad-op")
   | ["act", a] =>
     match parseAction a with
-    | some a => finishRes d (doAction st a)
+    | some a => finishRes d (doAction cfg st a)
     | none => (d, "bad-op")
   | ["geom", w, t, l, n, c] =>
     match ints? [w, t, l, n, c] with
@@ -142,11 +146,11 @@ def modelStep (d : DSt) (ts : List String) : DSt × String :=
   | ["flush"] => finishRes d (flushSt st)
   | ["key", t, m] =>
     match ints? [t, m] with
-    | some [t, m] => finishOut d (emitKey st { type := t, mod := m })
+    | some [t, m] => finishOut d (emitKey cfg st { type := t, mod := m })
     | _ => (d, "bad-op")
   | ["mouse", t, b, l, c, m] =>
     match ints? [t, b, l, c, m] with
-    | some [t, b, l, c, m] => finishOut d (emitMouse st { type := t, button := b, line := l, col := c, mod := m })
+    | some [t, b, l, c, m] => finishOut d (emitMouse cfg st { type := t, button := b, line := l, col := c, mod := m })
     | _ => (d, "bad-op")
   | _ => (d, "bad-op")
 
@@ -240,15 +244,15 @@ def specApply (m : Mon) (kind : Kind) (a : Action) : Mon :=
   match a.act with
   | .unref => { m with cur := { st with owned := st.owned.setIfInBounds a.win (st.owned.getD a.win 0 - 1) }, affected := m.affected ++ sub }
   | .close | .hide | .unhide | .stealOn | .stealOff =>
-    { m with cur := okOr (doAction st a) st, affected := m.affected ++ sub }
+    { m with cur := okOr (doAction cfg st a) st, affected := m.affected ++ sub }
   | .focus =>
     let aff := if kind = Kind.key then
         subtree t f (topAncestor t f a.win) ++ (match t.wins[0]? with
           | some r => (match r.focusedChild with | some fc => subtree t f fc | none => [])
           | none => [])
       else []
-    { m with cur := okOr (doAction st a) st, affected := m.affected ++ aff }
-  | _ => { m with cur := okOr (doAction st a) st }
+    { m with cur := okOr (doAction cfg st a) st, affected := m.affected ++ aff }
+  | _ => { m with cur := okOr (doAction cfg st a) st }
 
 def specDestroy (st : St) (w : Id) : St :=
   let t := st.tree
@@ -266,7 +270,7 @@ def ancestorsOrSelf (t : Tree) (id : Id) : List Id := id :: ancestors t (treeFue
 
 /-- The per-call clauses: behaviour table followed, hidden_never, mouse_relative, event fields; then the call's
     actions are applied. -/
-def checkCall (m : Mon) (origin : Id) (absL absC : Int) (button mod : Option Int) (blockStart : Bool) (c : Call) : Mon :=
+def checkCall (m : Mon) (what : String) (origin : Id) (absL absC : Int) (button mod : Option Int) (blockStart : Bool) (c : Call) : Mon :=
   let st := m.cur
   match findBinding st c.kind c.win c.idx with
   | none => m.fail s!"a handler ran that was never bound: window {c.win} index {c.idx}"
@@ -276,9 +280,9 @@ def checkCall (m : Mon) (origin : Id) (absL absC : Int) (button mod : Option Int
     let t := st.tree
     -- the offer to a window is the run of its handlers: eligibility is judged when the offer begins
     let m := if !blockStart ∨ visibleChain t (treeFuel t) c.win then m
-      else m.fail s!"hidden_never: window {c.win} was offered the event while it or one of its ancestors is hidden (or destroyed)"
+      else m.fail s!"hidden_never ({what}): window {c.win} was offered the event while it or one of its ancestors is hidden (or destroyed)"
     let m :=
-      if c.kind = Kind.mouse ∧ (ancestorsOrSelf t c.win).contains origin then
+      if c.kind = Kind.mouse ∧ blockStart ∧ (ancestorsOrSelf t c.win).contains origin then
         match absGeometry t (treeFuel t) c.win with
         | .ok g =>
           if c.ev.line = absL - g.top ∧ c.ev.col = absC - g.left then m
@@ -298,7 +302,7 @@ def nBindings (st : St) (kind : Kind) (win : Id) : Nat := (bindingsOf st kind wi
 
 /-- One dispatch (`_handle_key` / `_handle_mouse` from `origin`): returns the monitor and the claiming window. -/
 def checkSegment (m : Mon) (kind : Kind) (what : String) (origin : Option Id) (absL absC : Int) (button mod : Option Int)
-    (items : List Item) : Mon × Option Id :=
+    (items : List Item) (exempt : List Id := []) : Mon × Option Id :=
   let t0 := m.cur.tree
   let f0 := treeFuel t0
   let hasB (w : Id) : Bool := nBindings m.cur kind w > 0
@@ -313,7 +317,7 @@ def checkSegment (m : Mon) (kind : Kind) (what : String) (origin : Option Id) (a
         | .ok g => (mouseVisits t0 (routeFuel t0) o (absL - g.top) (absC - g.left)).map (·.1)
         | .ub _ => []
   let refOrder := refOrder.filter hasB
-  let m := { m with affected := [] }
+  let m := { m with affected := exempt }
   -- walk the items
   let step := fun (acc : Mon × List Id × Option Call × Option Id) (it : Item) =>
     let (m, seen, prev, claimer) := acc
@@ -334,7 +338,12 @@ def checkSegment (m : Mon) (kind : Kind) (what : String) (origin : Option Id) (a
       let blockStart := match prev with
         | some p => !(p.win = c.win ∧ p.idx + 1 < nBindings m.cur kind p.win)
         | none => true
-      let m := checkCall m (origin.getD 0) absL absC button mod blockStart c
+      -- all handlers of one offer see the same event
+      let m := match prev with
+        | some p => if !blockStart ∧ (p.ev.line ≠ c.ev.line ∨ p.ev.col ≠ c.ev.col ∨ p.ev.type ≠ c.ev.type) then
+            m.fail s!"{what}: the handlers of window {c.win} were given different events within one offer" else m
+        | none => m
+      let m := checkCall m what (origin.getD 0) absL absC button mod blockStart c
       let seen := if seen.contains c.win then seen else seen ++ [c.win]
       (m, seen, some c, if c.ret then some c.win else claimer)
     | _ => acc
@@ -389,6 +398,11 @@ def specMouse (st : St) (dr : Drag) (ev : Ev) (items : List Item) : String × Dr
   let live (m : Mon) (o : Option Id) : Option Id := match o with
     | some w => if isAlive m.cur.tree w then some w else none
     | none => none
+  -- a drag source that was closed (but is still referenced by the application) is no longer part of the tree:
+  -- whether it still hears about the drag is left open (its subtree is exempt from the order check)
+  let detached (m : Mon) (o : Option Id) : List Id := match o with
+    | some w => if isAlive m.cur.tree w ∧ !attached m.cur.tree (treeFuel m.cur.tree) w then subtree m.cur.tree (treeFuel m.cur.tree) w else []
+    | none => []
   -- synthesised events before the event itself
   let (m, dr, items) :=
     if ev.type = evPress then (m, { dr with button := ev.button, line := ev.line, col := ev.col }, items)
@@ -400,7 +414,7 @@ def specMouse (st : St) (dr : Drag) (ev : Ev) (items : List Item) : String × Dr
       let (seg, rest) := takeSegment evDragDrop items
       let (m, _) := checkSegment m .mouse "drag_consistent(DRAG_DROP)" (some 0) ev.line ev.col (some ev.button) none seg
       let (seg, rest) := takeSegment evDragStop rest
-      let (m, _) := checkSegment m .mouse "drag_consistent(DRAG_STOP)" (live m dr.source) ev.line ev.col (some ev.button) none seg
+      let (m, _) := checkSegment m .mouse "drag_consistent(DRAG_STOP)" (live m dr.source) ev.line ev.col (some ev.button) none seg (detached m dr.source)
       (m, { dr with dragging := false }, rest)
     else (m, dr, items)
   -- the event itself
@@ -412,7 +426,7 @@ def specMouse (st : St) (dr : Drag) (ev : Ev) (items : List Item) : String × Dr
       let (seg, rest) := takeSegment evDragOutside rest
       let src := live m dr.source
       let origin := if src.isSome ∧ handled ≠ src then src else none
-      let (m, _) := checkSegment m .mouse "drag_consistent(DRAG_OUTSIDE)" origin ev.line ev.col (some ev.button) none seg
+      let (m, _) := checkSegment m .mouse "drag_consistent(DRAG_OUTSIDE)" origin ev.line ev.col (some ev.button) none seg (detached m dr.source)
       (m, rest)
     else (m, rest)
   let m := match rest.find? isCall with
